@@ -43,7 +43,7 @@ def install_own_ascent(world):
 
 
 def make_optimizer(ospec, params):
-    opt = W.opt_class(ospec["cls"])(params, lr=ospec["lr"], **ospec.get("args", {}))
+    opt = W.opt_class(ospec["cls"])(params, lr=ospec["lr"], **W.opt_args(ospec))
     sched, freq = None, 1
     if ospec.get("sched"):
         s = ospec["sched"]
